@@ -71,12 +71,14 @@ def _tie(K, tie):
     return K
 
 
-def _case(recipe, kmode, K, kseed, a, c, bc_mode, bc_seed, p_dir, pseed, tie=None):
+def _case(recipe, kmode, K, kseed, a, c, bc_mode, bc_seed, p_dir, pseed, tie=None,
+          contrast=0):
     if tie and kmode.endswith("diag"):
         K = [[float(v) for v in row] for row in _tie(K, tie)]
     else:
         tie = None
     return {"grid": recipe, "kmode": kmode, "K": K, "kseed": int(kseed), "tie": tie,
+            "contrast": int(contrast) if kmode.startswith("hetero") else 0,
             "a": [float(v) for v in a], "c": float(c), "bc_mode": bc_mode,
             "bc_seed": int(bc_seed), "p_dir": float(p_dir), "pseed": int(pseed)}
 
@@ -110,6 +112,13 @@ def floor(tier):
             out.append(_case(dict(r), kmode, fs.random_spd(rng, dim, 50.0, diagonal=True),
                              70 + i, a, -1.0 + i, modes[(i + j) % 4], 400 + 2 * i + j, 0.5,
                              500 + i))
+    # heterogeneous diagonal tensors with a large cell-to-cell contrast
+    for i, r in enumerate(KORTH_FLOOR[2:]):
+        a = rng.normal(size=3)
+        a[r["dim"]:] = 0.0
+        out.append(_case(dict(r), "hetero_diag", fs.random_spd(rng, r["dim"], 50.0, diagonal=True),
+                         80 + i, a, 0.5, modes[i % 4], 800 + i, 0.5, 900 + i,
+                         contrast=[10, 6, 10, 12][i]))
     # tied diagonal entries (kxx == kyy != kzz, ..., isotropic) on 3-D K-orthogonal grids
     for i, tie in enumerate(["xy", "yz", "xz", "xyz"]):
         r = KORTH_FLOOR[4 + i % 2]
@@ -141,7 +150,8 @@ def generate(rng, tier, i):
         tie = str(rng.choice(["xy", "yz", "xz", "xyz"]))
     return _case(r, kmode, K, int(rng.integers(0, 2**31)), a, c, mode,
                  int(rng.integers(0, 2**31)), float(rng.choice([0.15, 0.5, 0.85])),
-                 int(rng.integers(0, 2**31)), tie=tie)
+                 int(rng.integers(0, 2**31)), tie=tie,
+                 contrast=int(rng.choice([0, 0, 0, 4, 10])))
 
 
 def _tensor(case, g, R):
@@ -154,6 +164,10 @@ def _tensor(case, g, R):
                               diagonal=kmode.endswith("diag"))
     if case.get("tie"):
         Kc = _tie(Kc, case["tie"])
+    if case.get("contrast"):
+        # cell-wise permeability contrast of up to 10**contrast (layered reservoirs)
+        crng = np.random.default_rng([case["kseed"], 77])
+        Kc = Kc * 10.0 ** (crng.uniform(-0.5, 0.5, g.num_cells) * float(case["contrast"]))
     Kc = np.einsum("ij,jkc,lk->ilc", R, Kc, R)
     return fs.tensor_from_cellwise(Kc), None
 
@@ -284,6 +298,36 @@ def check(case, mon):
         mon.violation("tpfa-nonpositive-diagonal", {"min": float(diag.min())})
     if np.any(off > TOL * amax):
         mon.violation("tpfa-positive-offdiagonal", {"max": float(off.max())})
+
+    # (K1b) closed form on K-orthogonal grids: harmonic average of the half
+    # transmissibilities A k_nn / d, compared row by row RELATIVE TO THE ROW (a contrast of
+    # 1e10 must not hide the low-permeable rows behind the largest entry of the matrix)
+    Kc = k.values
+    fi, ci, sg = sps.find(g.cell_faces)
+    nrm = g.face_normals[:, fi] / np.linalg.norm(g.face_normals[:, fi], axis=0)
+    knn = np.einsum("if,ijf,jf->f", nrm, Kc[:, :, ci], nrm)
+    dist = np.abs(np.sum((g.face_centers[:, fi] - g.cell_centers[:, ci]) * nrm, axis=0))
+    half = g.face_areas[fi] * knn / dist
+    inv = np.bincount(fi, weights=1.0 / half, minlength=nf)
+    cnt = np.bincount(fi, minlength=nf)
+    t_ref = 1.0 / inv
+    interior = cnt == 2
+    Fd = flux.toarray()
+    rowmax = np.max(np.abs(Fd), axis=1)
+    mon.count("closed_form_rows_checked", int(interior.sum()))
+    if interior.any():
+        mon.close("interior_transmissibility_row_relative", rowmax[interior] / t_ref[interior],
+                  np.ones(int(interior.sum())), 1e-10,
+                  "tpfa-transmissibility-differs-from-harmonic-average", scale=1.0)
+    dirf = np.zeros(nf, dtype=bool)
+    dirf[bf[is_dir]] = True
+    if dirf.any():
+        mon.close("dirichlet_transmissibility_row_relative", rowmax[dirf] / t_ref[dirf],
+                  np.ones(int(dirf.sum())), 1e-10,
+                  "tpfa-transmissibility-differs-from-harmonic-average", scale=1.0)
+    if case.get("contrast"):
+        mon.klass(f"K-contrast:1e{case['contrast']}")
+        mon.count("high_contrast_cases")
 
     # (K2) agreement with MPFA (2-D / 3-D)
     if dim >= 2:
